@@ -1,19 +1,23 @@
 #!/usr/bin/env python3
 """seedtest.py <patch> <Cxx> [<Cyy> ...]: apply a seeded change to /repo, run the named checks,
 undo the change (git -C /repo checkout -- .).  Prints one line per check:
-  <Cxx> exit=<code> <VIOLATION line or 'no alarm'>"""
+  <Cxx> exit=<code> <VIOLATION line or 'no alarm'>
+SEED_REPO=<dir> (default /repo): the git worktree the change is applied to - a scratch worktree of
+/repo with repo_patches applied, when harness/Cargo.toml points at it (testing a repair before
+it is committed to /repo)."""
 import subprocess, sys, os, json
 ROOT = os.path.dirname(os.path.dirname(os.path.abspath(__file__)))
+REPO = os.environ.get("SEED_REPO", "/repo")
 patch = os.path.abspath(sys.argv[1])
 checks = sys.argv[2:]
 def sh(cmd, **kw):
     return subprocess.run(cmd, shell=True, stdout=subprocess.PIPE, stderr=subprocess.STDOUT, **kw)
-st = sh("git -C /repo status --porcelain --untracked-files=no").stdout.decode().strip()
+st = sh("git -C %s status --porcelain --untracked-files=no" % REPO).stdout.decode().strip()
 if st:
-    print("refusing: /repo has uncommitted changes"); sys.exit(2)
-r = sh("git -C /repo apply --3way %s || git -C /repo apply %s" % (patch, patch))
+    print("refusing: %s has uncommitted changes" % REPO); sys.exit(2)
+r = sh("git -C %s apply %s || git -C %s apply --3way %s" % (REPO, patch, REPO, patch))
 if r.returncode != 0:
-    print("patch does not apply:", r.stdout.decode()[-400:]); sh("git -C /repo reset -q --hard HEAD"); sys.exit(2)
+    print("patch does not apply:", r.stdout.decode()[-400:]); sh("git -C %s reset -q --hard HEAD" % REPO); sys.exit(2)
 results = []
 try:
     for c in checks:
@@ -31,4 +35,4 @@ try:
                 pass
         print(line); results.append(line)
 finally:
-    sh("git -C /repo reset -q --hard HEAD")
+    sh("git -C %s reset -q --hard HEAD" % REPO)
